@@ -117,3 +117,7 @@ package v1alpha1
 //@   loop 1 invariant -1 <= rangeindex && rangeindex < len(ConcurrencyPoliciesAll)
 //@   loop 1 invariant forall k int :: 0 <= k && k <= rangeindex ==> ConcurrencyPoliciesAll[k] != p
 //@   ensures [C17] result == p.IsValid()
+
+// only used to pick the event type; no claim beyond termination-free looping over the package-level list
+//@ func JobResult.IsFailed
+//@   loop 1 invariant -1 <= rangeindex
